@@ -208,14 +208,18 @@ func c18Spaces() [c18NOpt]c18Space {
 	sp[c18Scan].flagAll = append([]c18Src{{}, bare}, c18Vals("true", "1", "t", "T", "TRUE", "True", "false", "0", "f", "F", "FALSE", "False")[1:]...)
 	sp[c18Scan].flagRep = []c18Src{{}, bare, v("false"), v("true")}
 	sp[c18Scan].envAll = c18Vals("", "true", "1", "yes", "on", "TRUE", "On", " yes ", "t", "T", "false", "0", "no", "off", "f", "F", "2", "tru", "garbage",
-		"YES", "oN", "\ton\t", "True", "FALSE", " 1", "tRuE", "y", "n", "01", "yes,no", "yes yes", "o n", " T ", "\tt")
+		"YES", "oN", "\ton\t", "True", "FALSE", " 1", "tRuE", "y", "n", "01", "yes,no", "yes yes", "o n", " T ", "\tt",
+		// quote characters are ordinary characters: a quoted spelling is none of the listed ones
+		`"true"`, `'yes'`, ` "1" `, "`on`")
 	sp[c18Scan].envRep = c18Vals("", "yes", "false", "garbage", " On ")
 	sp[c18Scan].flag3 = [3]c18Src{{}, bare, v("false")}
 	sp[c18Scan].env3 = [3]c18Src{{}, v(""), v("yes")}
 
 	paths := []string{"", "gen", " gen , ,zzz", ",", "testdata", "GEN", "gen,testdata", "zzz", "_test.go", "q.go", " , testdata ,", "gen/q", "Testdata", "a_test.go,t.go", "zzz=x,gen", "=,gen=,testdata",
 		// items are substrings, not cleaned paths: none of these is contained in a probe file's name
-		"./gen", "gen//q", "gen/./q, p/../gen", "gen/q/."}
+		"./gen", "gen//q", "gen/./q, p/../gen", "gen/q/.",
+		// quote characters are part of the item (an item with a quote matches no probe file)
+		`"gen"`, `'gen,testdata'`, ` "gen" `, `"gen",testdata`}
 	sp[c18Paths].flagAll = c18Vals(paths...)
 	sp[c18Paths].envAll = c18Vals(paths...)
 	sp[c18Paths].flagRep = c18Vals("", "gen", " gen , ,zzz")
@@ -224,7 +228,8 @@ func c18Spaces() [c18NOpt]c18Space {
 	sp[c18Paths].env3 = [3]c18Src{{}, v(""), v(" zzz , q.go,")}
 
 	checks := []string{"", "imm01", " IMM01 , ,ctor ", ",", "ALL", "all", "IMM", "tonl,pkgo02", "PKGO", "IMM02", "zzz", "Ctor01",
-		"imm01,ctor01,tonl02,pkgo02", "\tAll\t", "IM", "IMM0", "IMM011", "imm 01", "x=y,imm01", "imm01=1,ctor"}
+		"imm01,ctor01,tonl02,pkgo02", "\tAll\t", "IM", "IMM0", "IMM011", "imm 01", "x=y,imm01", "imm01=1,ctor",
+		`"IMM"`, `'imm01,ctor'`, ` "all" `, `"imm01",ctor`}
 	sp[c18Checks].flagAll = c18Vals(checks...)
 	sp[c18Checks].envAll = c18Vals(checks...)
 	sp[c18Checks].flagRep = c18Vals("", "imm01", " IMM01 , ,ctor ", "tonl,pkgo02")
